@@ -66,6 +66,12 @@ def write_replay(prop, fn, cfg, ob, do_run=True):
                 res = dict(confirmed=False, replay_error="%s: %s" % (type(e).__name__, e))
         else:
             res = run_native(fn, cfg, ob)
+        if ob["name"] == "setup.completes":
+            # confirmed iff CPython, running the real code, raised the same exception before reaching the function
+            blob = json.dumps(res, default=str)
+            res = dict(res, confirmed=bool(ob.get("exc")) and (ob["exc"] + ":" in blob or '"exception": "%s"' % ob["exc"] in blob
+                                                                or ob["exc"] + "(" in blob),
+                       expected_exception=ob.get("exc"))
         rec["replay"] = res
         confirmed = bool(res.get("confirmed"))
     rec["confirmed_on_real_code"] = confirmed
